@@ -745,6 +745,21 @@ class C17(Prop):
             if ft == 0:
                 g = copy.deepcopy(f); g["tfdf"]["fhp"] = None
                 yield Case({"op": "uslp_frame_pack", **g, **a}, "invalid", errclass=True, tag="pointer-missing")
+        # --- fixed frames whose data field (1 or 2 octets) is too short for the pointer: outside the statement
+        #     (no encoder output looks like this); model and code must still agree
+        for tl in (1, 2, 3):
+            for ocf in (0, 1):
+                for fecf in (None, 2):
+                    for iz in (None, 1):
+                        h = rand_phdr(rng)
+                        h["ocf"] = ocf
+                        body = (rbytes(rng, iz or 0) + bytes([(rng.choice(FP_RULES) << 5) | rng.randint(0, 31)])
+                                + rbytes(rng, tl - 1) + rbytes(rng, 4 * ocf) + rbytes(rng, fecf or 0))
+                        h["frame_len"] = 7 + h["vcf_len"] + len(body) - 1
+                        raw = enc_phdr(h) + body
+                        yield Case({"op": "uslp_frame_unpack", "raw": hx(raw), "frame_type": 0,
+                                    "props": {"kind": 0, "len": len(raw), "iz": iz, "fecf": fecf}}, "any", errclass=True,
+                                   tag="short-data-field")
         # --- managed parameters that do not match ---
         for f, ft, raw, p in sampled:
             yield from self.mismatch_cases(rng, f, ft, raw, p, thorough)
